@@ -72,6 +72,9 @@ fn observe(rec: &mut Rec, g: &Global, tr: &Triple, clients: usize, rng: &mut Cha
       let _ = g0.share_with_local_randomness();
       g0.x = SingleMeasurement::new(m);
       g0
+    } else if c % 3 == 1 && std::str::from_utf8(m).is_ok() {
+      // text measurements enter through the string conversion
+      MessageGenerator::new(SingleMeasurement::from(std::str::from_utf8(m).unwrap()), t, e)
     } else {
       MessageGenerator::new(SingleMeasurement::new(m), t, e)
     };
@@ -284,6 +287,25 @@ fn neighbours(rng: &mut ChaCha20Rng, idx: u64) -> Vec<Triple> {
         let mut e2 = vec![last];
         e2.extend_from_slice(&e);
         out.push((m2, e2, t));
+      }
+    }
+    4 => {
+      // text values that differ only in white space at their edges (also the empty string)
+      let ascii = |rng: &mut ChaCha20Rng, lo: usize| -> Vec<u8> { (0..rng.gen_range(lo..7)).map(|_| rng.gen_range(b'a'..=b'z')).collect() };
+      let m = ascii(rng, 0);
+      let e = ascii(rng, 0);
+      let t = rng.gen_range(1..5);
+      let edge = |v: &Vec<u8>, pre: &[u8], post: &[u8]| -> Vec<u8> {
+        let mut o = pre.to_vec();
+        o.extend_from_slice(v);
+        o.extend_from_slice(post);
+        o
+      };
+      let edges: [(&[u8], &[u8]); 9] =
+        [(b"", b""), (b" ", b""), (b"", b" "), (b" ", b" "), (b"", b"\n"), (b"\t", b""), (b"", b"\r\n"), (b"", b"  "), (b"\n", b"\n")];
+      for (pre, post) in edges.iter() {
+        out.push((edge(&m, pre, post), e.clone(), t));
+        out.push((m.clone(), edge(&e, pre, post), t));
       }
     }
     5 => {
